@@ -285,7 +285,8 @@ def make_unit(name, size, write, kind):
     def replay(inputs, ob):
         return c13_replay(name, size, write, kind, inputs, ob)
 
-    return Unit(uid, ['C13'], symbolic, replay, {'contracts': {}, 'max_paths': 4000}, meta={'function': '%s.ArmV6.%s' % (A.__module__, name)})
+    # C14 depends on these units too: the direction (WnR) and address handed to alignment_fault / translate_address by the accessors
+    return Unit(uid, ['C13', 'C14'], symbolic, replay, {'contracts': {}, 'max_paths': 4000}, meta={'function': '%s.ArmV6.%s' % (A.__module__, name)})
 
 
 def native_expected(name, size, write, kind, cpu, address, priv_arg, wasal_arg, value, fault_at):
